@@ -15,7 +15,11 @@
 //!   The same op is run on a root that implements `draw_iter` only (R1) and on a root with native
 //!   fill methods (R2). A panic of the real code is reported as `panic:<class>`.
 //!
-//! Colour types: the root has colour type `L0`; the k-th colour-converted adapter (counted from
+//!   adapters.runb <same tokens>   the same with real embedded-graphics colour types: the root is
+//!            `Rgb565`, the root-most colour-converted adapter is `BinaryColor -> Rgb565` (the
+//!            library's `From` impl), further ones `BinaryColor -> BinaryColor`; colours are 0/1.
+//!
+//! Colour types of `adapters.run`: the root has colour type `L0`; the k-th colour-converted adapter (counted from
 //! the root) converts `L(k+1) -> L(k)` by `From`, implemented as `c -> 3*c + k + 1` (so the
 //! composition order and the number of applications are visible in the result).
 //!
@@ -31,6 +35,7 @@ use crate::common::*;
 use embedded_graphics::{
     draw_target::DrawTargetExt,
     pixelcolor::raw::{RawData, RawU32},
+    pixelcolor::{BinaryColor, Rgb565},
     prelude::*,
     primitives::Rectangle,
     Pixel,
@@ -104,6 +109,29 @@ impl Lvl for L2 {
 }
 impl Lvl for L3 {
     type Next = L3; // never reached: at most three adapters
+}
+// second chain, real embedded-graphics colour types and `From` impls: the root is `Rgb565`, the
+// first colour-converted adapter converts `BinaryColor -> Rgb565` (Off -> black 0, On -> white
+// 0xFFFF), further ones are the identity `BinaryColor -> BinaryColor`.
+impl Lvl for Rgb565 {
+    type Next = BinaryColor;
+}
+impl Lvl for BinaryColor {
+    type Next = BinaryColor;
+}
+/// colour map of the k-th converted adapter (from the root) in chain `chain` (0 = L-chain, 1 = real)
+pub fn chain_conv(chain: u8, k: u32, c: u32) -> u32 {
+    if chain == 0 {
+        conv(k, c)
+    } else if k == 0 {
+        if c & 1 == 1 {
+            0xFFFF
+        } else {
+            0
+        }
+    } else {
+        c & 1
+    }
 }
 
 // ---------------------------------------------------------------------------------------------
@@ -262,14 +290,21 @@ go!(go2, go1);
 go!(go3, go2);
 
 /// (reported boxes, R1 root, R2 root) after the calls, or the panic message of the real code
-fn run_real(parent: &Rectangle, stack: &[Ad], calls: &[Call]) -> Result<(Vec<Rectangle>, Rec, Rec), String> {
+fn run_real(chain: u8, parent: &Rectangle, stack: &[Ad], calls: &[Call]) -> Result<(Vec<Rectangle>, Rec, Rec), String> {
+    if chain == 0 {
+        run_real_c::<L0>(parent, stack, calls)
+    } else {
+        run_real_c::<Rgb565>(parent, stack, calls)
+    }
+}
+fn run_real_c<C0: Lvl>(parent: &Rectangle, stack: &[Ad], calls: &[Call]) -> Result<(Vec<Rectangle>, Rec, Rec), String> {
     let r = std::panic::catch_unwind(std::panic::AssertUnwindSafe(|| {
         let mut bbs1 = Vec::new();
-        let mut r1 = R1::<L0>::new(*parent);
-        go3::<_, L0>(&mut r1, stack, calls, &mut bbs1);
+        let mut r1 = R1::<C0>::new(*parent);
+        go3::<_, C0>(&mut r1, stack, calls, &mut bbs1);
         let mut bbs2 = Vec::new();
-        let mut r2 = R2::<L0>::new(*parent);
-        go3::<_, L0>(&mut r2, stack, calls, &mut bbs2);
+        let mut r2 = R2::<C0>::new(*parent);
+        go3::<_, C0>(&mut r2, stack, calls, &mut bbs2);
         assert!(bbs1 == bbs2, "reported boxes depend on the root kind");
         (bbs1, r1.rec, r2.rec)
     }));
@@ -351,10 +386,11 @@ struct Reference {
     /// number of colour-converted adapters
     nconv: u32,
     root: Option<Iv>,
+    chain: u8,
 }
 impl Reference {
-    fn new(parent: &Rectangle, stack: &[Ad]) -> Self {
-        let mut r = Reference { sx: 0, sy: 0, clip: None, top_box: pts_of(parent), boxes: vec![], nconv: 0, root: pts_of(parent) };
+    fn new(chain: u8, parent: &Rectangle, stack: &[Ad]) -> Self {
+        let mut r = Reference { sx: 0, sy: 0, clip: None, top_box: pts_of(parent), boxes: vec![], nconv: 0, root: pts_of(parent), chain };
         let mut bbox = *parent; // documented box of the current top, library Rectangle arithmetic only
         for a in stack {
             match a {
@@ -395,7 +431,7 @@ impl Reference {
         // the top colour type is L(nconv); the outermost converted adapter is applied first
         let mut c = c;
         for k in (0..self.nconv).rev() {
-            c = conv(k, c);
+            c = chain_conv(self.chain, k, c);
         }
         c
     }
@@ -565,7 +601,7 @@ impl Module for M {
     fn generate(&self, pid: &str, tier: Tier, rng: &mut Rng, emit: &mut dyn FnMut(String)) {
         let quick = tier == Tier::Quick;
         let c01 = pid == "C01";
-        let (gx, gy) = if quick || c01 { (3, 2) } else { (4, 3) };
+        let (gx, gy) = if quick || c01 { (3, 3) } else { (4, 4) };
         let (ox, oy) = (-1, -1);
         let lo = Point::new(ox, oy);
         let hi = Point::new(ox + gx - 1, oy + gy - 1);
@@ -663,6 +699,40 @@ impl Module for M {
                 }
             }
         }
+        if !c01 {
+            // real colour types: Rgb565 root, BinaryColor -> Rgb565 (and identity) conversions
+            let binary = |calls: Vec<Call>| -> Vec<Call> {
+                calls
+                    .into_iter()
+                    .map(|c| match c {
+                        Call::DrawIter(px) => Call::DrawIter(px.into_iter().map(|(p, c)| (p, c % 2)).collect()),
+                        Call::FillContiguous(a, cs) => Call::FillContiguous(a, cs.into_iter().map(|c| (c / 2) % 2).collect()),
+                        Call::FillSolid(a, c) => Call::FillSolid(a, c % 2),
+                        Call::Clear(c) => Call::Clear(c % 2),
+                    })
+                    .collect()
+            };
+            let cr = Rectangle::new(Point::new(0, -1), Size::new(2, 2));
+            let d = Point::new(1, 0);
+            let stacks: Vec<Vec<Ad>> = vec![
+                vec![Ad::Conv],
+                vec![Ad::Clip(cr), Ad::Conv],
+                vec![Ad::Conv, Ad::Clip(cr)],
+                vec![Ad::Trans(d), Ad::Conv],
+                vec![Ad::Conv, Ad::Crop(cr)],
+                vec![Ad::Conv, Ad::Conv],
+                vec![Ad::Conv, Ad::Clip(cr), Ad::Conv],
+                vec![Ad::Crop(cr), Ad::Conv, Ad::Trans(d)],
+            ];
+            for root in &roots[..3] {
+                for st in &stacks {
+                    for a in &grid {
+                        let op = fmt_op(root, st, &binary(battery(a, lo, hi)));
+                        emit(op.replacen("adapters.run ", "adapters.runb ", 1));
+                    }
+                }
+            }
+        }
         // seeded random histories
         let n = match (c01, quick) {
             (true, true) => 1500,
@@ -689,7 +759,11 @@ impl Module for M {
     fn execute(&self, op: &str, ctx: &mut Ctx) -> String {
         let mut t = Toks::new(op);
         match t.str() {
-            "adapters.run" => {
+            stream @ ("adapters.run" | "adapters.runb") => {
+                let chain: u8 = if stream == "adapters.runb" { 1 } else { 0 };
+                if chain == 1 {
+                    ctx.count("real-colour-types(Rgb565<-BinaryColor)");
+                }
                 let parent = t.rect();
                 let stack = parse_stack(t.str());
                 let calls = parse_calls(t.str());
@@ -709,7 +783,7 @@ impl Module for M {
                     ctx.count("root:non-origin");
                 }
                 let c01 = ctx.pid == "C01";
-                let (bbs, r1, r2) = match run_real(&parent, &stack, &calls) {
+                let (bbs, r1, r2) = match run_real(chain, &parent, &stack, &calls) {
                     Ok(x) => x,
                     Err(msg) => {
                         // the result text must not start with `panic:` (main.rs would add a second,
@@ -727,7 +801,7 @@ impl Module for M {
                     }
                 };
                 // ---- oracle -------------------------------------------------------------------
-                let reference = Reference::new(&parent, &stack);
+                let reference = Reference::new(chain, &parent, &stack);
                 ctx.expect(bbs == reference.boxes, "C03:reported-bbox", || {
                     format!(
                         "reported {} documented {}",
@@ -766,7 +840,7 @@ impl Module for M {
                     let (m1, m2) = if k == calls.len() {
                         (r1.map.clone(), r2.map.clone())
                     } else {
-                        match run_real(&parent, &stack, &calls[..k]) {
+                        match run_real(chain, &parent, &stack, &calls[..k]) {
                             Ok((_, a, b)) => (a.map, b.map),
                             Err(_) => continue,
                         }
